@@ -398,6 +398,14 @@ def eval_adaptive(case):
         out.append(V("adaptive_union", f"adaptive_vs_union|{sig}|{'+'.join(sorted(diff(cu, cc)))}", case, cu, cc))
     if snap(a) != sa or snap(b) != sb_:
         out.append(V("operands_untouched", f"operand_modified|{sig}", case, "unchanged", diff(sa, snap(a)) or diff(sb_, snap(b))))
+    want_dt = np.promote_types(a.dtype, b.dtype)
+    e = a.copy()
+    e += b
+    for nm, r in (("add", c), ("iadd", e)):
+        if np.dtype(r.dtype) != want_dt or r.frequencies.dtype != want_dt or r.errors2.dtype != want_dt:
+            out.append(V("dtype_promotion", f"dtype|{sig}|{nm}", case, str(want_dt), [str(r.dtype), str(r.frequencies.dtype), str(r.errors2.dtype)]))
+    if content_snap(e) != cc:
+        out.append(V("iadd", f"iadd|{sig}", case, cc, content_snap(e)))
     d = b + a
     if content_snap(d) != cc:
         out.append(V("commutative", f"commutative|{sig}", case, cc, content_snap(d)))
